@@ -322,6 +322,12 @@ Section Auto.
 
     Definition table_rows (LA : list (nat * nat * nat)) : rows := map (fun q => (q, row LA q)) (seq 0 nstates).
 
+    (* the LR(0) item sets as a certificate annotation for Driver_proofs.check_table *)
+    Definition item_rules (q : nat) : list (rule * nat) :=
+      map (fun it : item => (rule_at (fst it), snd it)) (closure_of q).
+    Definition items_annot : list (state * list (rule * nat)) :=
+      map (fun q => (q, item_rules q)) (seq 0 nstates).
+
     (* end_states[start]: the state containing the satisfied root item *)
     Definition end_state (i : nat) : option nat :=
       let r := nth i roots 0 in
